@@ -139,10 +139,32 @@ def known_open(prop):
 
 # ---- reporting --------------------------------------------------------------
 def run_dir(tag):
-    d = os.path.join(BUILD, 'run', '%s-%d' % (tag, os.getpid()))
-    shutil.rmtree(d, ignore_errors=True)
-    os.makedirs(d)
-    return d
+    """A private scratch directory whose *path* is the same from one invocation to the next (slot 00 unless another
+    instance of the same check is running): paths leak into string hashes and heap layouts, and a replay in a fresh
+    process should see the very paths the original run saw."""
+    base = os.path.join(BUILD, 'run')
+    os.makedirs(base, exist_ok=True)
+    tag = tag[:10].ljust(10, '_')
+    for slot in range(100):
+        d = os.path.join(base, '%s-s%02d' % (tag, slot))
+        try:
+            os.mkdir(d)
+        except FileExistsError:
+            try:
+                pid = int(open(os.path.join(d, '.pid')).read())
+                os.kill(pid, 0)
+                continue            # owned by a live process
+            except (IOError, ValueError, ProcessLookupError):
+                shutil.rmtree(d, ignore_errors=True)
+                try:
+                    os.mkdir(d)
+                except FileExistsError:
+                    continue
+            except PermissionError:
+                continue
+        open(os.path.join(d, '.pid'), 'w').write(str(os.getpid()))
+        return d
+    raise InfraError('no free run-directory slot for ' + tag)
 
 
 def replay_dir():
